@@ -22,6 +22,7 @@ import (
 	"path/filepath"
 	"reflect"
 	"runtime"
+	"strings"
 	"sync"
 	"sync/atomic"
 	"time"
@@ -40,6 +41,8 @@ type vRaceEnv struct {
 	rng      uint64
 	yieldOn  int32
 	requests int64
+	rngs     sync.Map // hook point name -> *uint64 generator state
+	longHold int32    // 1: the next core.process.end keeps the core loop busy for 120 ms
 }
 
 var vRE vRaceEnv
@@ -52,7 +55,46 @@ func (e *vRaceEnv) count(name string) *int64 {
 	return v.(*int64)
 }
 
-func (e *vRaceEnv) get(name string) int64 { return atomic.LoadInt64(e.count(name)) }
+func (e *vRaceEnv) get(name string) int64 {
+	if name == "yields" { // summed over the per-point counters
+		var n int64
+		e.points.Range(func(k, v any) bool {
+			if strings.HasPrefix(k.(string), "yields:") {
+				n += atomic.LoadInt64(v.(*int64))
+			}
+			return true
+		})
+		return n
+	}
+	return atomic.LoadInt64(e.count(name))
+}
+
+// rndFor draws from a generator that belongs to one hook point. (One generator shared by all points was an atomic variable
+// touched by every goroutine at every hook visit: to the race detector that is synchronisation between all of them, and it
+// ordered - and so hid - unsynchronised accesses of the code under test that happened around hook visits.)
+func (e *vRaceEnv) rndFor(name string) uint64 {
+	v, ok := e.rngs.Load(name)
+	if !ok {
+		seed := atomic.LoadUint64(&e.rng)
+		for _, ch := range []byte(name) {
+			seed = seed*1099511628211 + uint64(ch)
+		}
+		p := new(uint64)
+		*p = seed | 1
+		v, _ = e.rngs.LoadOrStore(name, p)
+	}
+	st := v.(*uint64)
+	for {
+		old := atomic.LoadUint64(st)
+		x := old
+		x ^= x << 13
+		x ^= x >> 7
+		x ^= x << 17
+		if atomic.CompareAndSwapUint64(st, old, x) {
+			return x
+		}
+	}
+}
 
 func (e *vRaceEnv) rnd() uint64 {
 	for {
@@ -75,20 +117,25 @@ func vRaceHandlers() *verifHandlers {
 			if atomic.LoadInt32(&e.yieldOn) == 0 {
 				return
 			}
-			if (name == "abaco.block.assemble" || name == "lancero.block.assemble") && e.rnd()%8 == 0 {
-				// now and then block assembly falls a whole read period behind, so that the reader's next tick runs beside it
-				time.Sleep(12 * time.Millisecond)
-				atomic.AddInt64(e.count("yields"), 1)
+			if name == "core.process.end" && atomic.CompareAndSwapInt32(&e.longHold, 1, 0) {
+				time.Sleep(120 * time.Millisecond)
+				atomic.AddInt64(e.count("yields:"+name), 1) // (a counter per point, for the same reason as the generators)
 				return
 			}
-			switch r := e.rnd() % 20; {
+			if (name == "abaco.block.assemble" || name == "lancero.block.assemble") && e.rndFor(name)%8 == 0 {
+				// now and then block assembly falls a whole read period behind, so that the reader's next tick runs beside it
+				time.Sleep(12 * time.Millisecond)
+				atomic.AddInt64(e.count("yields:"+name), 1) // (a counter per point, for the same reason as the generators)
+				return
+			}
+			switch r := e.rndFor(name) % 20; {
 			case r < 8:
 			case r < 16:
 				runtime.Gosched()
-				atomic.AddInt64(e.count("yields"), 1)
+				atomic.AddInt64(e.count("yields:"+name), 1) // (a counter per point, for the same reason as the generators)
 			default:
-				time.Sleep(time.Duration(20+e.rnd()%400) * time.Microsecond)
-				atomic.AddInt64(e.count("yields"), 1)
+				time.Sleep(time.Duration(20+e.rndFor(name)%400) * time.Microsecond)
+				atomic.AddInt64(e.count("yields:"+name), 1) // (a counter per point, for the same reason as the generators)
 			}
 		},
 		Span: func(name string) func() {
@@ -305,8 +352,18 @@ func vRaceSession(k *vCaller, w vRaceWorkload, cycle int, dir string, reconfigur
 	nap()
 	k.must("WriteControl", &WriteControlConfig{Request: "UNPAUSE resumed"}, &okay)
 	if w.lancero {
+		// a mix request that has to wait a long time (some 25 read periods) for its answer: the core loop is held busy after its
+		// next block, so block assembly cannot hand over the following block nor look at the request
+		atomic.StoreInt32(&vRE.longHold, 1)
+		time.Sleep(20 * time.Millisecond) // by now the loop is being held and block assembly is waiting to hand over the next block
 		mfo := MixFractionObject{ChannelIndices: []int{1}, MixFractions: []float64{0}}
 		k.must("ConfigureMixFraction", &mfo, &okay)
+		// the client stays quiet until the loop has been released and the request has been served: anything it did now (the next
+		// request takes the source's locks, the reset below is an atomic the loop reads) would order this request's goroutine
+		// before the data loop's next steps by accident, and hide unsynchronised accesses made while giving the answer
+		time.Sleep(130 * time.Millisecond)
+		atomic.StoreInt32(&vRE.longHold, 0)
+		k.c.Cov("mix_requests_kept_waiting", 1)
 	}
 	k.must("ReadComment", &zero, &s)
 	nap()
@@ -443,6 +500,7 @@ func vRunRace(c *vCase) {
 	w := workloads[c.Idx%len(workloads)]
 	c.Describe("workload=%s seed=%d idx=%d", w.name, c.Seed, c.Idx)
 	atomic.StoreUint64(&e.rng, uint64(c.R.Int63())|1)
+	e.rngs.Range(func(k, _ any) bool { e.rngs.Delete(k); return true }) // the per-point generators are re-seeded from the case
 	atomic.StoreInt32(&e.yieldOn, 1)
 	defer atomic.StoreInt32(&e.yieldOn, 0)
 	before := map[string]int64{}
@@ -638,7 +696,7 @@ func init() {
 		Setup: vRaceSetup,
 		Run:   vRunRace,
 		Meta: vMeta{Level: "exploration",
-			Rule: "case = one workload (triangle, triangle with 2.2 s blocks, simpulse, abaco over loopback UDP against the real RunRPCServer via one JSON-RPC connection; scripted Lancero card, scripted two-producer Abaco against an in-package SourceControl wired like RunRPCServer) x one yield seed: two start/stop cycles, each with pulse-length change, edge+level+auto triggers on all channels, edge-multi on one channel, group-trigger connections, err->fb coupling and mix changes (Lancero), projectors on two channels, START of LJH2.2+LJH3+OFF writing, state label, comment write/read, two raw-data blocks, SENDALL, PAUSE/UNPAUSE, STOP, while RunClientUpdater publishes and saves the configuration every 30 ms; verifPoint sites yield or sleep pseudo-randomly. The binary is race-instrumented; every DATA RACE report with a repository frame is a violation (de-duplicated by the pair of innermost/outermost repository functions); non-trivial = workload ran without a failed request",
+			Rule:        "case = one workload (triangle, triangle with 2.2 s blocks, simpulse, abaco over loopback UDP against the real RunRPCServer via one JSON-RPC connection; scripted Lancero card, scripted two-producer Abaco against an in-package SourceControl wired like RunRPCServer) x one yield seed: two start/stop cycles, each with pulse-length change, edge+level+auto triggers on all channels, edge-multi on one channel, group-trigger connections, err->fb coupling and mix changes (Lancero), projectors on two channels, START of LJH2.2+LJH3+OFF writing, state label, comment write/read, two raw-data blocks, SENDALL, PAUSE/UNPAUSE, STOP, while RunClientUpdater publishes and saves the configuration every 30 ms; verifPoint sites yield or sleep pseudo-randomly. The binary is race-instrumented; every DATA RACE report with a repository frame is a violation (de-duplicated by the pair of innermost/outermost repository functions); non-trivial = workload ran without a failed request",
 			Assumptions: []string{"only executed accesses are seen; libzmq (cgo) is not instrumented", "single client: one JSON-RPC connection or one calling goroutine"},
 			Guards: map[string]map[string]int{
 				"quick":    {"blocks_processed": 300, "requests_issued": 300, "yields_injected": 500, "output_files_written": 50, "config_saves": 5, "raw_block_requests": 20, "raw_blocks_completed": 20, "workload_triangle": 1, "workload_simpulse": 1, "workload_abaco-udp": 1, "workload_lancero-card": 1, "workload_abaco-scripted": 1, "workload_triangle-long-blocks": 1, "workload_selfend": 1, "workload_erroring-rpc": 1, "self_terminations_with_racing_requests": 6},
